@@ -35,4 +35,13 @@ let () = read_lines_iter (fun line ->
     let addr = bytes_of_hex a in
     Printf.printf "idx=%s lpm=%s\n" (hex_of_bytes (netip_prefix_key is4 addr b))
       (match netip_prefix_lpm_key is4 addr b with None -> "panic" | Some k -> hex_of_bytes k)
+  | ["u16s"; v] -> print_endline (match uint16_string_key (bytes_of_hex v) with None -> "err" | Some k -> hex_of_bytes k)
+  | ["u32s"; v] -> print_endline (match uint32_string_key (bytes_of_hex v) with None -> "err" | Some k -> hex_of_bytes k)
+  | ["u64s"; v] -> print_endline (match uint64_string_key (bytes_of_hex v) with None -> "err" | Some k -> hex_of_bytes k)
+  | ["i16s"; v] -> print_endline (match int16_string_key (bytes_of_hex v) with None -> "err" | Some k -> hex_of_bytes k)
+  | ["i32s"; v] -> print_endline (match int32_string_key (bytes_of_hex v) with None -> "err" | Some k -> hex_of_bytes k)
+  | ["i64s"; v] -> print_endline (match int64_string_key (bytes_of_hex v) with None -> "err" | Some k -> hex_of_bytes k)
+  | ["nip"; a] -> print_endline (hex_of_bytes (netip_key (bytes_of_hex a)))
+  | ["nipp4"; a; bits] ->
+    print_endline (match netip_prefix4_lpm_key (bytes_of_hex a) (n_of_int (int_of_string bits)) with None -> "panic" | Some k -> hex_of_bytes k)
   | _ -> Printf.printf "E unknown op: %s\n" line)
